@@ -277,24 +277,43 @@ Section Classes.
     | Some e => if fmt_invalid e then EInvalid else if chain_is e then ENotExist else EOther
     end.
 
-  (* errors made by fmt.Errorf / errors.New inside notation-go are not the
+  (* errors made inside notation-go (fmt.Errorf, errors.New, the sentinels of the
+     packages plugin and verifier, whose typ is their name) are not the
      operating system's "does not exist" *)
+  Definition lib_typ (t : string) : bool :=
+    String.eqb t "fmt" || String.eqb t "errors" || has_prefix "plugin." t || has_prefix "verifier." t.
+
   Definition lib_errors_distinct : Prop :=
-    forall t f ws, notexist (Err t f ws) = true -> t <> "fmt" /\ t <> "errors".
+    forall e, notexist e = true -> lib_typ (err_typ e) = false.
 
   Lemma chain_is_wrap1 (H : lib_errors_distinct) f e :
     chain_is (Err "fmt" f [e]) = chain_is e.
   Proof.
     cbn [chain_is]. destruct (notexist (Err "fmt" f [e])) eqn:N.
-    - apply H in N. now elim (proj1 N).
+    - apply H in N. discriminate N.
     - cbn [orb]. now rewrite orb_false_r.
   Qed.
 
   Lemma chain_is_leaf (H : lib_errors_distinct) t f :
-    t = "fmt" \/ t = "errors" -> chain_is (Err t f []) = false.
+    lib_typ t = true -> chain_is (Err t f []) = false.
   Proof.
     intros Ht. cbn [chain_is]. destruct (notexist (Err t f [])) eqn:N; [|reflexivity].
-    apply H in N. destruct Ht; tauto.
+    apply H in N. cbn [err_typ] in N. congruence.
+  Qed.
+
+  (* a library error without wrapped errors whose text does not say "invalid
+     plugin name" (decidable on a generated constant by computation) *)
+  Definition lib_leaf (o : option GoLib.err) : bool :=
+    match o with
+    | Some (Err t f []) => lib_typ t && negb (fmt_invalid (Err t f []))
+    | _ => false
+    end.
+
+  Lemma errc_lib_leaf (H : lib_errors_distinct) o : lib_leaf o = true -> errc o = EOther.
+  Proof.
+    destruct o as [[t f [|x ws]]|]; cbn [lib_leaf]; try discriminate.
+    intros L. apply andb_true_iff in L. destruct L as [Lt Lf]. apply negb_true_iff in Lf.
+    unfold errc. rewrite Lf, (chain_is_leaf H t f Lt). reflexivity.
   Qed.
 End Classes.
 
@@ -336,6 +355,29 @@ Proof.
   unfold get, new_cli_plugin. destruct (valid_name name); [|reflexivity]. cbn [negb].
   destruct (stat w _) as [| |[|x m]]; reflexivity.
 Qed.
+
+(* CLIManager.Uninstall = validatePluginName, then os.Stat and os.RemoveAll on
+   SysPath(name) *)
+Lemma uninstall_is_validate_then_stat w root name :
+  uninstall w root name =
+  if valid_name name then
+    let p := pjoin [root; name] in
+    match stat w p with
+    | SNotExist => (ENotExist, w, [EStat p])
+    | SOtherErr => (EOther, w, [EStat p])
+    | SOk _ => (ENone, fs_remove_all p w, [EStat p; ERemoveAll p])
+    end
+  else (EInvalid, w, []).
+Proof. unfold uninstall. destruct (valid_name name); reflexivity. Qed.
+
+(* isExecutableFile in the model (scan_step, install: a stat, then the x bit) *)
+Definition is_executable_file (w : fs) (p : string) : bool * C16_Model.err :=
+  match stat w p with
+  | SNotExist => (false, ENotExist)
+  | SOtherErr => (false, EOther)
+  | SOk NDir => (false, EOther)
+  | SOk (NFile x _) => (x, ENone)
+  end.
 
 (* getVerificationPlugin in the model: the first stage of verify_plan.
    NSNoPlugin = the attribute is absent (verification goes on without plugin),
